@@ -155,9 +155,10 @@ func (x *Exec) appendCall(st *State, cc *ssa.CallCommon, args []Val, pos token.P
 		n = sx("gstr_len", e.S)
 		srcAt = func(i string) string { return sx("gstr_at", e.S, i) }
 	} else {
-		n = sLen(e.S)
-		srcArr := c.def("src", c.regions[r][len("(Array Int "):len(c.regions[r])-1], sx("select", h, sRef(e.S)))
-		soff := sOff(e.S)
+		es := c.resolve(e.S)
+		n = sLen(es)
+		srcArr := c.def("src", c.regions[r][len("(Array Int "):len(c.regions[r])-1], sx("select", h, sRef(es)))
+		soff := sOff(es)
 		srcAt = func(i string) string { return sx("select", srcArr, sx("+", soff, i)) }
 		if n == "1" {
 			single = srcAt("0")
